@@ -131,6 +131,22 @@ PROPS = {
         "real_vs_stub": REAL + "; scheduling of every goroutine that reaches a lock or file call is decided by the simulator (Go select arbitration and map order are observed, not controlled)",
         "assumptions": ["decision points exist only at (rewritten) lock operations and file-system calls; code between two such points is atomic to the scheduler"],
     },
+    "C13": {
+        "level": "exploration", "quick": 400, "thorough": 30000, "batch": 1, "single_timeout": 150, "race": True, "race_div": 4,
+        "rule": ("2-4 client tasks (reinforce one shared node, merge distinct metadata keys into it, KV set/get/delete with unique values on 3 keys, "
+                 "add/delete own vectors, link/unlink, search, get), an admin task (SaveSnapshot, RewriteAOF, vacuum, refine, compress, index drop/"
+                 "create on a second index), an event subscriber with buffer 0-2 that never reads (half of the runs), a task that calls Close (once or "
+                 "twice) at a random point (half of the runs) followed by calls after Close, all interleaved by the cooperative scheduler (every lock "
+                 "operation / file call is a decision point; PCT depth 1-4 + random yields; scheduler-driven clock). Oracle: process does not panic / die; "
+                 "no stall (40 simulated seconds without an enabled task) with lock holders and stacks reported; every mutating call invoked after Close "
+                 "returned gets an error; _access_count of the shared node within [acknowledged, issued] reinforcements, live and after restart; every "
+                 "acknowledged metadata key present; KV history linearizable (porcupine, call/return = global event sequence numbers, <=200 ops, Unknown "
+                 "= inconclusive). The same seeds also run in the -race build (a quarter of them). Non-trivial: >=6 recorded ops and >10 grants; "
+                 "distinct = task programs + hash of the grant sequence."),
+        "real_vs_stub": REAL + "; goroutine choice at every lock/IO decision point is the simulator's",
+        "assumptions": ["data races are only visible to the -race tier inside one scheduler step (the scheduler's own hand-off creates happens-before edges between steps): the data-race clause is covered partially",
+                        "decision points exist only at rewritten lock operations and file calls"],
+    },
 }
 
 
@@ -140,6 +156,12 @@ NOT_APPLICABLE["C20"] = ("pure functions of their input (text analysis, chunking
                          "no schedule, fault or interleaving for a simulator to decide; property-based testing territory, see DESIGN.md section 7")
 
 MANIFEST_TEXT = {
+    "C13": {
+        "text": "Seeded search over schedules of mixed client, admin, subscriber and Close tasks under the cooperative scheduler, with a stall detector (deadlock), process-death detection (panic/fatal/SIGSEGV), per-item counting oracles (reinforcements, metadata merges), a linearizability check of the KV history (porcupine) and clean-failure-after-Close; a quarter of the seeds are repeated in the -race build.",
+        "design_ref": "DESIGN.md section 6 C13, section 2.3",
+        "note": "Schedules are sampled, not enumerated. The data-race clause is covered only partially (races inside one scheduler step); lock-free code between two decision points is atomic to the scheduler.",
+        "technique": "deterministic simulation: cooperative lock/IO scheduler (PCT) + stall detector + porcupine linearizability + per-item counting oracles; -race build on the same seeds",
+    },
     "C14": {
         "text": "Seeded search over schedules: writers, snapshot/compaction/flush requests, the log writer goroutine, background housekeeping and Close are interleaved by a cooperative scheduler that owns every lock and file-system decision point; acknowledged versions are compared with what survives Close+Open and with crash images taken at the moment Flush/Sync/SaveSnapshot/RewriteAOF return.",
         "design_ref": "DESIGN.md section 6 C14, section 2.3",
